@@ -182,14 +182,66 @@ DECOR_KEY = {'edge': ('gf',), 'head': ('mark_heads_marking',),
              'block_number': ('boyd_split_numbering',)}
 
 
-def _data_fields_read(e):
+def _field_aliases(f):
+    """locals that stand for `<node>.data` (alias of the field table) or for one field of it"""
+    from ..core import _unique_assign
+    tables, fields = {}, {}
+    for nm in f.locals:
+        v = _unique_assign(f, nm)
+        if isinstance(v, ast.Attribute) and v.attr == 'data':
+            tables[nm] = unparse(v.value)
+    for nm in f.locals:
+        v = _unique_assign(f, nm)
+        if isinstance(v, ast.Subscript) and const_str(v.slice):
+            base = v.value
+            if (isinstance(base, ast.Attribute) and base.attr == 'data') or (isinstance(base, ast.Name) and base.id in tables):
+                fields[nm] = const_str(v.slice)
+    return tables, fields
+
+
+def _data_fields_read(e, f=None):
     out = []
+    tables, fields = _field_aliases(f) if f is not None else ({}, {})
     for n in ast.walk(e):
-        if isinstance(n, ast.Subscript) and isinstance(n.value, ast.Attribute) and n.value.attr == 'data':
-            k = const_str(n.slice)
-            if k:
-                out.append(k)
+        if isinstance(n, ast.Subscript) and const_str(n.slice):
+            if isinstance(n.value, ast.Attribute) and n.value.attr == 'data':
+                out.append(const_str(n.slice))
+            elif isinstance(n.value, ast.Name) and n.value.id in tables:
+                out.append(const_str(n.slice))
+        elif isinstance(n, ast.Name) and n.id in fields:
+            out.append(fields[n.id])
     return out
+
+
+def _flatten_components(v):
+    """components of a label expression: '%s%s' % (a, b) | a + b + c | f-string"""
+    if isinstance(v, ast.BinOp) and isinstance(v.op, ast.Mod) and const_str(v.left) is not None \
+            and isinstance(v.right, ast.Tuple):
+        fmt = const_str(v.left)
+        if fmt.replace('%s', '') == '' and fmt.count('%s') == len(v.right.elts):
+            return list(v.right.elts)
+        return None
+    if isinstance(v, ast.BinOp) and isinstance(v.op, ast.Add):
+        comps = []
+
+        def flat(e):
+            if isinstance(e, ast.BinOp) and isinstance(e.op, ast.Add):
+                flat(e.left)
+                flat(e.right)
+            else:
+                comps.append(e)
+        flat(v)
+        return comps
+    if isinstance(v, ast.JoinedStr):
+        if any(isinstance(x, ast.Constant) and x.value for x in v.values):
+            return None
+        return [x.value for x in v.values if isinstance(x, ast.FormattedValue)]
+    if isinstance(v, ast.Name):
+        return [v]
+    return None
+
+
+DECOR_OPTION_KEYS = ('gf', 'gf_terminals', 'mark_heads_marking', 'boyd_split_marking', 'boyd_split_numbering')
 
 
 def r_decor(prog, tier):
@@ -202,124 +254,151 @@ def r_decor(prog, tier):
     rets = [n for n in walk_own(f.node) if isinstance(n, ast.Return)]
     if not rets:
         raise Unrecognised('get_label has no return')
-    comp_vars_all = None
+    comps_of = {}
     for r in rets:
-        v = r.value
-        comps = None
-        if isinstance(v, ast.BinOp) and isinstance(v.op, ast.Mod) and const_str(v.left) is not None \
-                and isinstance(v.right, ast.Tuple):
-            fmt = const_str(v.left)
-            if fmt.replace('%s', '') == '' and fmt.count('%s') == len(v.right.elts):
-                comps = list(v.right.elts)
-        elif isinstance(v, ast.BinOp) and isinstance(v.op, ast.Add):
-            comps = []
-
-            def flat(e):
-                if isinstance(e, ast.BinOp) and isinstance(e.op, ast.Add):
-                    flat(e.left)
-                    flat(e.right)
-                else:
-                    comps.append(e)
-            flat(v)
-        elif isinstance(v, ast.JoinedStr):
-            comps = [x.value for x in v.values if isinstance(x, ast.FormattedValue)]
-            if any(isinstance(x, ast.Constant) and x.value for x in v.values):
-                comps = None
-        ok = comps is not None and len(comps) == 5 and all(isinstance(c, ast.Name) for c in comps)
+        comps_of[r] = _flatten_components(r.value) if r.value is not None else []
+    known = [len(c) for c in comps_of.values() if c is not None]
+    most = max(known) if known else 0
+    main = None
+    for r in rets:
+        comps = comps_of[r]
+        if comps is None:
+            obs.append(Ob('DECOR/RETURN', f.fq, 'return `%s` carries the label and every decoration' % unparse(r)[:60], None,
+                          'shape of the returned expression not recognised', construct='ret:' + unparse(r), line=r.lineno))
+            continue
+        if len(comps) < most:
+            obs.append(Ob('DECOR/RETURN', f.fq, 'return `%s` carries the label and every decoration' % unparse(r)[:60], False,
+                          'this path returns %d component(s) while another return has %d: the decorations computed '
+                          'elsewhere are lost on it' % (len(comps), most), construct='ret:' + unparse(r), line=r.lineno))
+            continue
+        main = r
+        names_ok = all(isinstance(c, ast.Name) for c in comps)
         tied = []
-        if ok:
-            at = cfg.node_of(r)
-            # component 0 is the plain label
-            d0 = single_def(f, comps[0].id, at)
-            ok0 = bool(d0 and d0[0] != 'param' and isinstance(d0[1], ast.AST)
-                       and unparse(d0[1]) == "%s.data['label']" % f.params[0])
-            for c in comps[1:]:
+        if names_ok:
+            for c in comps:
                 fields = set()
                 for (nid, val) in name_defs(f, c.id):
                     if isinstance(val, ast.AST):
-                        fields |= set(_data_fields_read(val))
+                        fields |= set(_data_fields_read(val, f))
                         for a in cfg.assumes_at(nid):
-                            fields |= set(_data_fields_read(a.ast))
+                            fields |= set(_data_fields_read(a.ast, f))
                 tied.append(fields)
-            order_ok = ok0 and len(tied) == 4 and 'edge' in tied[0] and 'head' in tied[1] \
-                and 'split' in tied[2] and 'block_number' not in tied[2] and 'block_number' in tied[3]
-            ok = order_ok
-            comp_vars_all = [c.id for c in comps]
-        obs.append(Ob('DECOR/RETURN', f.fq, 'every return of get_label is label + function + head mark + split '
-                      'mark + split number, in this order: `%s`' % unparse(r)[:70], ok,
-                      'five components, tied to label/edge/head/split/block_number in this order' if ok else
-                      'this return does not concatenate the label and all four decorations in the fixed order '
-                      '(a decoration would be lost or misplaced)', construct='ret:' + unparse(r), line=r.lineno))
-    if comp_vars_all:
-        for c in comp_vars_all[1:]:
-            defs = name_defs(f, c)
-            empties = [d for d in defs if isinstance(d[1], ast.Constant) and d[1].value == '']
-            nonempty = [d for d in defs if d not in empties]
-            e_ok = len(empties) >= 1 and any(cfg.always_with(cfg.entry, d[0]) for d in empties) \
-                and all(cfg.dominates(empties[0][0], d[0]) for d in nonempty)
-            obs.append(Ob('DECOR/DEFAULT', f.fq, 'decoration `%s` is the empty string unless an option sets it' % c,
-                          e_ok, 'initialised to "" unconditionally before any other definition' if e_ok else
-                          'no unconditional "" initialisation dominating the other definitions',
-                          construct='dflt:' + c, line=f.node.lineno, nontrivial=False))
-            for (nid, val) in nonempty:
-                if not isinstance(val, ast.AST):
-                    obs.append(Ob('DECOR/GUARD', f.fq, 'definition of `%s` is an assignment' % c, False,
-                                  'unmodelled definition', construct='decor?:' + c))
-                    continue
-                facts = facts_at(cfg, nid)
-                fields = set(_data_fields_read(val))
-                for a in cfg.assumes_at(nid):
-                    fields |= set(_data_fields_read(a.ast))
-                need = None
-                for fld in ('block_number', 'edge', 'head', 'split'):
-                    if fld in fields:
-                        need = DECOR_KEY[fld]
-                        break
-                if need is None:
-                    obs.append(Ob('DECOR/GUARD', f.fq, 'decoration `%s = %s` is tied to a node field'
-                                  % (c, unparse(val)), False, 'reads no node field: cannot be matched to an option',
-                                  construct='decor-free:' + unparse(val), line=cfg.nodes[nid].lineno))
-                    continue
-                have = [fa for (fa, _) in facts if fa[0] == 'haskey' and fa[1] == kw and fa[3] is True]
-                ok = any(fa[2] in need for fa in have)
-                obs.append(Ob('DECOR/GUARD', f.fq, 'decoration `%s = %s` appears only under option %s'
-                              % (c, unparse(val), ' / '.join(need)), ok,
-                              'dominated by `%r in %s`' % ([fa[2] for fa in have if fa[2] in need][0], kw) if ok else
-                              'not control-dependent on the option key(s) %s on every path' % (need,),
-                              construct='decor:%s=%s' % (c, unparse(val)), line=cfg.nodes[nid].lineno))
-                if 'edge' in fields:
-                    # terminals get the function only with gf_terminals
+        ok = None
+        why = 'components not all simple locals'
+        if names_ok and len(comps) == 5:
+            order_ok = 'label' in tied[0] and 'edge' in tied[1] and 'head' in tied[2] \
+                and 'split' in tied[3] and 'block_number' not in tied[3] and 'block_number' in tied[4]
+            if order_ok:
+                ok, why = True, 'five components, tied to label/edge/head/split/block_number in this order'
+            elif all(tied[1:]) and [sorted(t)[0] if t else '' for t in tied[1:]] != ['edge', 'head', 'split', 'block_number'] \
+                    and set().union(*tied[1:]) >= {'edge', 'head', 'split', 'block_number'}:
+                ok, why = False, 'the decorations are concatenated in another order than function, head mark, split mark, split number'
+            else:
+                why = 'components could not all be tied to their node fields'
+        elif names_ok and len(comps) < 5:
+            ok, why = None, '%d components (a decoration may have been merged into another one)' % len(comps)
+        obs.append(Ob('DECOR/RETURN', f.fq, 'the label is the category followed by function, head mark, split mark and '
+                      'split number, in this order: `%s`' % unparse(r)[:60], ok, why, construct='ret:' + unparse(r), line=r.lineno))
+    if main is None:
+        return obs, {}
+    comps = [c for c in comps_of[main] if isinstance(c, ast.Name)]
+    for c in comps[1:]:
+        c = c.id
+        defs = name_defs(f, c)
+        branches = []       # (node id, value ast, [facts]) for non-empty values
+        has_empty = False
+        for (nid, val) in defs:
+            if not isinstance(val, ast.AST):
+                continue
+            if isinstance(val, ast.Constant) and val.value == '':
+                has_empty = True
+                continue
+            if isinstance(val, ast.IfExp):
+                for (v2, pol) in ((val.body, True), (val.orelse, False)):
+                    if isinstance(v2, ast.Constant) and v2.value == '':
+                        has_empty = True
+                        continue
+                    extra = [(norm_test(e, p_), nid) for (e, p_) in split_assumes(val.test, pol)]
+                    branches.append((nid, v2, facts_at(cfg, nid) + extra, val.test))
+                continue
+            branches.append((nid, val, facts_at(cfg, nid), None))
+        obs.append(Ob('DECOR/DEFAULT', f.fq, 'decoration `%s` is the empty string unless an option sets it' % c,
+                      True if has_empty else None, 'has an "" definition' if has_empty else 'no "" default recognised',
+                      construct='dflt:' + c, line=f.node.lineno, nontrivial=False))
+        for (nid, val, facts, ifexp_test) in branches:
+            if isinstance(val, ast.Call) and prog.callee(val, f) is not None:
+                obs.append(Ob('DECOR/GUARD', f.fq, 'decoration `%s` computed by a helper' % c, None,
+                              'delegated to %s.%s: not followed' % prog.callee(val, f), construct='decor-helper:' + c,
+                              line=cfg.nodes[nid].lineno))
+                continue
+            fields = set(_data_fields_read(val, f))
+            guard_exprs = [cfg.nodes[a].ast for (_, a) in facts if cfg.nodes[a].kind == 'assume']
+            for ge in guard_exprs:
+                fields |= set(_data_fields_read(ge, f))
+            if ifexp_test is not None:
+                fields |= set(_data_fields_read(ifexp_test, f))
+            need = None
+            for fld in ('block_number', 'edge', 'head', 'split'):
+                if fld in fields:
+                    need = DECOR_KEY[fld]
+                    break
+            if need is None:
+                obs.append(Ob('DECOR/GUARD', f.fq, 'decoration `%s = %s` is tied to a node field'
+                              % (c, unparse(val)[:40]), None, 'reads no node field this rule can see',
+                              construct='decor-free:' + unparse(val), line=cfg.nodes[nid].lineno))
+                continue
+            fl = [x[0] for x in facts]
+            have = [fa for fa in fl if fa[0] == 'haskey' and fa[1] == kw and fa[3] is True]
+            ok = any(fa[2] in need for fa in have)
+            verdict = True if ok else None
+            why = 'dominated by `%r in %s`' % ([fa[2] for fa in have if fa[2] in need][0], kw) if ok else \
+                'the option test was not recognised'
+            if not ok:
+                # positive evidence: the key is tested, but inside an `or` (the decoration can be switched on without it)
+                for fa in fl:
+                    if fa[0] == 'opaque' and fa[2] is True and any("'%s' in %s" % (k, kw) in fa[1] for k in need) and ' or ' in fa[1]:
+                        verdict, why = False, 'the option %s is only one alternative of `%s`: the decoration can appear ' \
+                                              'without it' % (need, fa[1][:70])
+                if verdict is None and not any(any("'%s'" % k in unparse(cfg.nodes[a].ast) for k in need) for (_, a) in facts) \
+                        and (ifexp_test is None or not any("'%s'" % k in unparse(ifexp_test) for k in need)):
+                    verdict, why = False, 'the decoration is computed without consulting option %s at all' % (need,)
+            # independence: must not depend on another decoration option being absent
+            if verdict is not False:
+                for fa in fl:
+                    txt = fa[1] if fa[0] in ('opaque',) else ''
+                    neg = (fa[0] == 'haskey' and fa[1] == kw and fa[3] is False and fa[2] in DECOR_OPTION_KEYS and fa[2] not in need) \
+                        or (fa[0] == 'opaque' and fa[2] is False and any("'%s' in %s" % (k, kw) in txt for k in DECOR_OPTION_KEYS if k not in need))
+                    if neg:
+                        verdict, why = False, 'the decoration is written only when another output option is absent (`%s`): ' \
+                                              'with both options one of them is lost' % (fa[1] if fa[0] == 'opaque' else fa[2])
+            obs.append(Ob('DECOR/GUARD', f.fq, 'decoration `%s = %s` appears exactly under option %s'
+                          % (c, unparse(val)[:40], ' / '.join(need)), verdict, why,
+                          construct='decor:%s=%s' % (c, unparse(val)), line=cfg.nodes[nid].lineno))
+            if 'edge' in fields:
+                ok2 = None
+                for fa in fl:
+                    if fa[0] == 'opaque' and fa[2] is True and ' or ' in fa[1] and 'has_children(' in fa[1] and "'gf_terminals' in %s" % kw in fa[1]:
+                        ok2 = True
+                if ok2 is None and not any('gf_terminals' in unparse(cfg.nodes[a].ast) for (_, a) in facts):
                     ok2 = False
-                    for a in cfg.assumes_at(nid):
-                        if a.pol and isinstance(a.ast, ast.BoolOp) and isinstance(a.ast.op, ast.Or):
-                            parts = [norm_test(x, True) for x in a.ast.values]
-                            hc = any(p[0] == 'opaque' and p[1] in ('has_children(%s)' % f.params[0],
-                                                                    'trees.has_children(%s)' % f.params[0])
-                                     and p[2] for p in parts)
-                            gt = ('haskey', kw, 'gf_terminals', True) in parts
-                            if hc and gt and len(parts) == 2:
-                                ok2 = True
-                    obs.append(Ob('DECOR/GUARD', f.fq, 'tokens get the function label only with gf_terminals', ok2,
-                                  'guard `has_children(tree) or \'gf_terminals\' in params`' if ok2 else
-                                  'no guard restricting the function label on tokens to gf_terminals',
-                                  construct='decor-gfterm', line=cfg.nodes[nid].lineno))
-                    # separator comes from the option
-                    sepnames = [n.id for n in ast.walk(val) if isinstance(n, ast.Name) and n.id != f.params[0]]
-                    ok3 = False
-                    for s in sepnames:
-                        sd = name_defs(f, s)
-                        has_default = any(isinstance(v2, ast.AST) and unparse(v2) == 'DEFAULT_GF_SEPARATOR'
-                                          for (_, v2) in sd)
-                        has_opt = any(isinstance(v2, ast.AST) and "%s['gf_separator']" % kw in unparse(v2)
-                                      and ('haskey', kw, 'gf_separator', True) in [x[0] for x in facts_at(cfg, n2)]
-                                      for (n2, v2) in sd)
-                        if has_default and has_opt:
-                            ok3 = True
-                    obs.append(Ob('DECOR/GUARD', f.fq, 'the function label is joined with the gf_separator option '
-                                  '(default DEFAULT_GF_SEPARATOR)', ok3,
-                                  'separator variable: default constant, overridden under `\'gf_separator\' in params`'
-                                  if ok3 else 'separator does not come from the option with the documented default',
-                                  construct='decor-gfsep', line=cfg.nodes[nid].lineno))
+                obs.append(Ob('DECOR/GUARD', f.fq, 'tokens get the function label only with gf_terminals', ok2,
+                              'guard `has_children(tree) or \'gf_terminals\' in params`' if ok2 else
+                              ('gf_terminals is never consulted' if ok2 is False else 'guard not recognised'),
+                              construct='decor-gfterm', line=cfg.nodes[nid].lineno))
+                sepnames = [n.id for n in ast.walk(val) if isinstance(n, ast.Name) and n.id != f.params[0]]
+                ok3 = None
+                for s_ in sepnames:
+                    sd = [v2 for (_, v2) in name_defs(f, s_) if isinstance(v2, ast.AST)]
+                    txt = ' '.join(unparse(v2) for v2 in sd)
+                    if 'DEFAULT_GF_SEPARATOR' in txt and "'gf_separator'" in txt:
+                        ok3 = True
+                    elif 'DEFAULT_GF_SEPARATOR' in txt and "'gf_separator'" not in txt and len(sd) == 1:
+                        ok3 = False
+                obs.append(Ob('DECOR/GUARD', f.fq, 'the function label is joined with the gf_separator option '
+                              '(default DEFAULT_GF_SEPARATOR)', ok3,
+                              'separator: the option, else the default constant' if ok3 else
+                              ('the gf_separator option is ignored' if ok3 is False else 'separator source not recognised'),
+                              construct='decor-gfsep', line=cfg.nodes[nid].lineno))
     return obs, {}
 
 
@@ -491,13 +570,22 @@ def r_sibling(prog, tier):
     fl = format_label_separators(prog)
     exp = [(p[1], p[2]) for p in EXPECTED_PIECES if p[0] == 'sep']
     obs.append(Ob('R-SIBLING/GFSPLIT', 'trees.format_label', 'format_label joins gap index and co-index with '
-                  'their own separators, gap index first', fl == exp,
+                  'their own separators, gap index first', True if fl == exp else (None if len(fl) < 2 else False),
                   'appends %s' % fl if fl == exp else 'format_label appends %s, expected %s' % (fl, exp),
                   construct='fmt-seps', line=prog.func('trees', 'format_label').node.lineno))
     for nm in GF_SPLIT_FUNCS:
         f = prog.func('treeinput', nm)
-        pieces, edge_ok, line, parse_ok = gf_split_pieces(prog, f)
+        try:
+            pieces, edge_ok, line, parse_ok = gf_split_pieces(prog, f)
+        except Unrecognised as e:
+            obs.append(Ob('R-SIBLING/GFSPLIT', f.fq, 'gf_split re-assembles the label with the separators format_label uses',
+                          None, str(e), construct='gfsplit-unrecognised'))
+            continue
         ok = pieces == EXPECTED_PIECES
+        if not ok and any(p_[0] == 'unknown' for p_ in pieces):
+            ok = None
+        edge_ok = True if edge_ok else None
+        parse_ok = True if parse_ok else None
         obs.append(Ob('R-SIBLING/GFSPLIT', f.fq, 'gf_split re-assembles the label as label [=gapindex] [-coindex] '
                       'headmarker with the separators format_label uses', ok,
                       'pieces %s' % pieces if ok else 'pieces %s differ from %s' % (pieces, EXPECTED_PIECES),
@@ -518,7 +606,8 @@ def r_sibling(prog, tier):
         ys = [n for n in cfg.eval_nodes() if n.kind == 'stmt' and isinstance(n.ast, ast.Expr)
               and isinstance(n.ast.value, ast.Yield)]
         if len(ys) != 1:
-            raise Unrecognised('%s has %d yield statements' % (f.fq, len(ys)))
+            obs.append(Ob('R-SIBLING/PARENS', f.fq, 'replace_parens', None, '%d yield statements' % len(ys), construct='parens-shape'))
+            continue
         y = ys[0]
         yv = unparse(y.ast.value.value)
         ok = False
@@ -538,8 +627,28 @@ def r_sibling(prog, tier):
                                     and cfg.in_every_iteration(n.id, m.id):
                                 ok = True
                                 why = 'for %s in trees.preorder(%s): trees.replace_chars(%s, trees.BRACKETS)' % (tv, yv, tv)
+        verdict = True if ok else None
+        if not ok:
+            # the loop may live in a helper called under the option
+            for n in cfg.eval_nodes():
+                if n.kind == 'stmt' and ('haskey', kw, 'replace_parens', True) in [x[0] for x in facts_at(cfg, n.id)] \
+                        and cfg.can_reach(n.id, y.id):
+                    for sub in walk_own(n.ast):
+                        if isinstance(sub, ast.Call) and prog.callee(sub, f) and sub.args and unparse(sub.args[0]) == yv:
+                            g = prog.func(*prog.callee(sub, f), required=False)
+                            if g is not None and any(isinstance(x, ast.Call) and prog.callee(x, g) == ('trees', 'replace_chars')
+                                                     and len(x.args) == 2 and unparse(x.args[1]) == 'trees.BRACKETS'
+                                                     for x in walk_own(g.node)) \
+                                    and any(isinstance(x, ast.For) and unparse(x.iter) == 'trees.preorder(%s)' % g.params[0]
+                                            for x in walk_own(g.node)):
+                                verdict = True
+                                why = 'delegated to %s, which maps trees.BRACKETS over trees.preorder of the sentence' % g.fq
+            if verdict is None and not any('replace_parens' in unparse(cfg.nodes[x[1]].ast) for n in cfg.eval_nodes()
+                                           for x in facts_at(cfg, n.id)):
+                verdict = False
+                why = 'the replace_parens option is never consulted by this reader'
         obs.append(Ob('R-SIBLING/PARENS', f.fq, 'replace_parens maps the brackets in every node of the sentence '
-                      'before it is yielded', ok, why, construct='parens', line=y.lineno))
+                      'before it is yielded', verdict, why, construct='parens', line=y.lineno))
     # quiet: every message of a reader is suppressed by quiet
     nq = 0
     for f in sorted(prog.modules['treeinput'].funcs.values(), key=lambda x: x.fq):
@@ -601,7 +710,9 @@ def _sid_rules(prog):
             if n.kind == 'stmt' and isinstance(n.ast, ast.Assign) and unparse(n.ast.targets[0]).endswith(".data['sid']"):
                 stores.append(n)
         if len(stores) != 1:
-            raise Unrecognised('%s has %d stores of the sentence id' % (f.fq, len(stores)))
+            obs.append(Ob('R-SIBLING/SID', f.fq, 'sentence id assignment', None, '%d stores of the sentence id' % len(stores),
+                          construct='sid-shape-' + nm))
+            continue
         st = stores[0]
         v = st.ast.value
         if isinstance(v, ast.Name):
@@ -627,7 +738,8 @@ def _sid_rules(prog):
                 why = 'counter `%s`: %s; overridden once, before the loop, by brackets_firstid' % (v.id, how) if ok \
                     else 'counter `%s`: first value %s (%s); brackets_firstid override ok: %s' % (v.id, val, how, opt_ok)
             obs.append(Ob('R-SIBLING/SID', f.fq, 'bracket sentences are numbered from 1 (or brackets_firstid), '
-                          'one per sentence', ok, why, construct='sid-brackets', line=st.lineno))
+                          'one per sentence', True if ok else (False if (isinstance(v, ast.Name) and val is not None and val != 1) else None),
+                          why, construct='sid-brackets', line=st.lineno))
             continue
         ok = False
         why = 'sentence id is not `<counter> if \'continuous\' in params else <id from file>`'
@@ -639,6 +751,8 @@ def _sid_rules(prog):
                 cnt, fid = v.orelse, v.body
             else:
                 cnt = fid = None
+            val = src_ok = None
+            src_why = ''
             if isinstance(cnt, ast.Name):
                 val, how, other = _counter_first_value(f, cnt.id, use)
                 src_ok, src_why = _file_id_ok(f, nm, fid, use)
@@ -646,8 +760,14 @@ def _sid_rules(prog):
                 why = 'counter `%s` (%s) when continuous, else %s' % (cnt.id, how, src_why) if ok else \
                     'counter `%s`: first value %s (%s), other definitions %d; file id: %s' \
                     % (cnt.id, val, how, len(other), src_why)
+        verdict = True if ok else None
+        if not ok and isinstance(v, ast.IfExp) and isinstance(cnt, ast.Name):
+            if val is not None and val != 1:
+                verdict = False
+            elif src_ok is False and ('.search(' in src_why or '.match(' in src_why or '[0]' in src_why):
+                verdict = False
         obs.append(Ob('R-SIBLING/SID', f.fq, 'sentence id is the running number from 1 with `continuous`, '
-                      'else %s' % spec[nm][1], ok, why, construct='sid-' + nm, line=st.lineno))
+                      'else %s' % spec[nm][1], verdict, why, construct='sid-' + nm, line=st.lineno))
     return obs
 
 
